@@ -35,7 +35,7 @@ YEARS = ['1998', '1999', '2000', '2001', '2002', '2009', '2010', '2011', '2029',
 AT_SET = [t + s for t in ('0:00', '0:01', '2:00', '23:59', '24:00') for s in ('', 's', 'u')]
 ON_SET = ['1', '15', '28', 'lastSun', 'lastMon', 'Sun>=1', 'Sun>=8', 'Sat>=22', 'Fri<=8', 'Mon<=28', 'Sun<=14']
 SAVE_SET = ['-1:00', '-0:30', '0', '0:15', '0:30', '1:00', '1:30', '2:00', '2:45']
-STDOFF_SET = ['-12:00', '-9:30', '-3:30', '0:00', '5:45', '8:45', '12:45', '14:00']
+STDOFF_SET = ['-12:00', '-9:30', '-3:30', '-0:30', '-0:01', '0:00', '0:01', '5:45', '8:45', '12:45', '14:00']
 UNTIL_TAILS = [(), ('Jan',), ('Feb', '29'), ('Mar', 'lastSun'), ('Jun', '15', '0:00'), ('Oct', 'Sun>=1', '2:00s'), ('Dec', '31', '24:00'), ('Jan', '1', '0:01u'), ('Jul', '1', '23:59')]
 
 def render(seed, idx):
